@@ -31,6 +31,7 @@ type Decoder struct {
 	r                     DecoderReader
 	disallowUnknownFields bool
 	networkFormat         bool
+	depth                 int // TagList and TagCompound values being read (see enter)
 }
 
 func NewDecoder(r io.Reader) *Decoder {
